@@ -1,8 +1,8 @@
 SPECIFICATION MCSpec
 CONSTANTS
-  MaxAddr = 1
+  MaxAddr = 2
   MaxVal = 1
-  MaxDepth = 3
+  MaxDepth = 2
 VIEW MCView
 INVARIANT ChkOK
 INVARIANT NoErr
